@@ -206,6 +206,12 @@ func (c *checker) CheckFunctions(t *parser.Thrift) (warns []string, err error) {
 				err = fmt.Errorf("[IDL grammar error] %s.%s: oneway methods can't throw exceptions from file %s", svc.Name, f.Name, t.Filename)
 				return
 			}
+			if err = checkFunctionFields(svc.Name, f.Name, "argument", f.Arguments, t.Filename); err != nil {
+				return
+			}
+			if err = checkFunctionFields(svc.Name, f.Name, "exception", f.Throws, t.Filename); err != nil {
+				return
+			}
 			for _, a := range f.Arguments {
 				if a.Requiredness == parser.FieldType_Optional {
 					argOpt = t.Filename + ": optional keyword is ignored in argument lists."
@@ -237,4 +243,22 @@ func (c *checker) CheckFunctions(t *parser.Thrift) (warns []string, err error) {
 		warns = append(warns, argOpt)
 	}
 	return
+}
+
+// checkFunctionFields rejects duplicated IDs and names in an argument list or a throws list:
+// both become the fields of a generated struct.
+func checkFunctionFields(svc, fn, kind string, fields []*parser.Field, filename string) error {
+	ids := make(map[int32]bool)
+	names := make(map[string]bool)
+	for _, a := range fields {
+		if ids[a.ID] {
+			return fmt.Errorf("[IDL grammar error] duplicated %s ID %d in %q.%q from file %s", kind, a.ID, svc, fn, filename)
+		}
+		if names[a.Name] {
+			return fmt.Errorf("[IDL grammar error] duplicated %s name %q in %q.%q from file %s", kind, a.Name, svc, fn, filename)
+		}
+		ids[a.ID] = true
+		names[a.Name] = true
+	}
+	return nil
 }
